@@ -682,7 +682,8 @@ def applyPlanBody (cfg : Cfg) (plan : Plan) : M Unit := do
   logM cfg
   logM cfg
   let t ← getTree
-  if !preflightOk t plan.rens then throw .destExists
+  -- any refusal of the pre-flight loop (occupied or shared destination) is the failure class `destExists`
+  if (preflight t [] plan.rens).isSome then throw .destExists
   else do
     let files := sortedFiles plan.hunks
     let orig := originals t files
